@@ -35,6 +35,16 @@ const CONTEXTS: [&str; 15] = [
     "local x = t[@]",
 ];
 
+/// Luau-only contexts, applied to the Lua 5.1 operator templates under Luau syntax
+const LUAU_CONTEXTS: [&str; 6] = [
+    "x += @",
+    "x ..= @",
+    "local s = `a{@}b`",
+    "local y = if @ then 1 else 2",
+    "local y = if c then @ else 2",
+    "local y = (@) :: number",
+];
+
 fn operands(long: bool) -> [&'static str; 4] {
     if long {
         [
@@ -246,6 +256,8 @@ fn context_class(c: &str) -> &'static str {
         "field"
     } else if c.contains("t[") {
         "index"
+    } else if c == "luau-context" {
+        "luau"
     } else {
         "assignment"
     }
@@ -256,6 +268,24 @@ pub fn run_item(ctx: &mut Ctx, i: usize) {
     let lo = i * CHUNK;
     let hi = (lo + CHUNK).min(all.len());
     for (k, (family, expr, syntax)) in all[lo..hi].iter().enumerate() {
+        if *syntax == "Lua51" {
+            let lbase = Cfg::with_syntax("Luau");
+            for (ci, context) in LUAU_CONTEXTS.iter().enumerate() {
+                if ctx.quick() && (lo + k + ci) % 3 != 0 {
+                    continue;
+                }
+                let prog = format!("{}\n", context.replace('@', expr));
+                if !fmt::parses(&prog, &lbase) {
+                    ctx.count("rejected_by_parser");
+                    continue;
+                }
+                for w in widths_for(prog.len()) {
+                    let mut c = lbase.clone();
+                    c.column_width = w;
+                    check_one(ctx, &format!("c05:{family}:luau{ci}:w{w}"), &prog, &c, family, "luau-context");
+                }
+            }
+        }
         let base = Cfg::with_syntax(syntax);
         // quick: contexts rotate; thorough: all
         for (ci, context) in CONTEXTS.iter().enumerate() {
